@@ -8,7 +8,8 @@ META = {"units": "K", "scale": 2, "offset": 0.5, "history": ["made", "saved"], "
 class JsonRoundTrip(Contract):
     """BOUNDED STAND-IN ONLY (never counted as proved).  DimArray.from_json(a.to_json()) has a's dims, labels (numbers and
     strings), values (NaN included) and JSON-representable metadata; to_jsondict / from_jsondict likewise; serialising does
-    not change the array.  The functions go through ndarray.tolist(), json.dumps and json.loads -- Python lists and text,
+    not change the array (its metadata included: entries JSON cannot represent are left out of the text, not removed from the
+    array, and the dictionary handed out is not the array's own).  The functions go through ndarray.tolist(), json.dumps and json.loads -- Python lists and text,
     outside the symbolic engine's reach -- and are evaluated on the real code over arrays of rank 0-3 with float / integer /
     string labels of length 0-3 in any order, float (every NaN pattern of the family) and integer data, and metadata of
     str / int / float / list / nested-dict kind.  [C19, JSON half]"""
@@ -45,11 +46,23 @@ class JsonRoundTrip(Contract):
             data = data.astype(np.int64) + 2 ** 40       # beyond int32
         a = S.da.DimArray(data, axes=[("x%d" % d, L) for d, L in enumerate(labs)])
         a.attrs.update(META)
+        # metadata JSON cannot represent (a NumPy scalar, an array) is left out of the text -- and must stay on the array
+        a.attrs["count"] = np.int64(7)
+        a.attrs["weights"] = np.array([0.5, 0.25])
         env["a"], env["labs"] = a, labs
         env["before"] = (a.values.copy(), [ax.values.copy() for ax in a.axes], dict(a.attrs))
         if case["via"] == "json":
             return S.da.DimArray.from_json(a.to_json())
-        return S.da.DimArray.from_jsondict(a.to_jsondict())
+        jd = a.to_jsondict()
+        out = S.da.DimArray.from_jsondict(jd)
+        # what was handed out is the caller's: changing it must not reach the array
+        try:
+            for k in list(jd):
+                if isinstance(jd[k], dict):
+                    jd[k]["injected"] = 1
+        except Exception:
+            pass
+        return out
 
     def post(self, S, case, env, result):
         import numpy as np
@@ -71,4 +84,5 @@ class JsonRoundTrip(Contract):
         yield "dtype-restored", result.values.dtype == a.values.dtype or a.values.size == 0
         yield "metadata-restored", dict(result.attrs) == META
         v0, l0, m0 = env["before"]
-        yield "serialising-leaves-the-array-untouched", same(a.values, v0) and all(same(ax.values, l) for ax, l in zip(a.axes, l0)) and dict(a.attrs) == m0
+        yield "serialising-leaves-the-array-untouched", same(a.values, v0) and all(same(ax.values, l) for ax, l in zip(a.axes, l0)) and \
+            sorted(dict(a.attrs)) == sorted(m0) and all(a.attrs[k] is m0[k] or (not isinstance(m0[k], np.ndarray) and a.attrs[k] == m0[k]) for k in m0)
